@@ -33,7 +33,9 @@
                 pr = "METHOD target" of the request the message asks for, when that
                 is beyond doubt (unmodified base requests, their prefixes and
                 remainders), else "";
-                wf = "unsup": a request of another major HTTP version
+                wf = "unsup": a request of another major HTTP version;
+                wf = "badlen": a request (or just its header block) whose Content-Length
+                is not a number, is empty, or has two different values
      k="req"    a `request` event for connection c was dispatched (pr = "METHOD
                 target" of the request object handed to the application)
      k="rej"    an `httperror` event for connection c was dispatched
@@ -120,9 +122,11 @@ Fail(P, ln) ==
               \* already answered message answered again)
          ELSE IF ln.pr # "ok" THEN "C14.invalid_response"
          ELSE IF S.ph \in {"rej", "recv"} /\ S.wf = "mal" /\ ln.st < 300 THEN "C14.invalid_response"
-         ELSE IF S.wf = "unsup" /\ ln.st < 400 THEN "C14.invalid_response"
-              \* unsupported input (another major HTTP version) is to be refused with 4xx/5xx,
-              \* however lenient the parser is
+         ELSE IF S.wf \in {"unsup", "badlen"} /\ ln.st < 400 THEN "C14.invalid_response"
+              \* unsupported input (another major HTTP version) and a non-numeric / empty /
+              \* conflicting Content-Length (the statement names them: the message's framing
+              \* is unknown, what follows would be taken for the next request) are to be
+              \* refused with 4xx/5xx, however lenient the parser is
          ELSE IF S.wf = "good" /\ S.ph \in {"rej", "recv"} /\ ln.st >= 400 THEN "C14.error_for_wellformed"
               \* 4xx/5xx are for malformed or unsupported input: a complete well-formed request
               \* (in one piece or cut anywhere and completed) that was not even dispatched is
